@@ -560,7 +560,7 @@ def gen_program(rng, case, focus=None, allow_infeasible=True):
                             M.bucket('C08/dilute/trace_concentration')
                         st = {'op': 'dilute', 'dst': t, 'solute': solute, 'solvent': solv,
                               'conc': f'{c0 * rng.uniform(0.3, 0.9):.6g} {num}/{den}',
-                              'new_name': rng.choice([None, None, f'renamed{created}'])}
+                              'new_name': rng.choice([None, None, f'renamed{len(steps)}'])}
         elif kind in ('solution', 'solution_c'):
             created += 1
             solute = rng.choice([s for s in subs if not s.is_liquid()] or subs)
